@@ -95,20 +95,23 @@ def r2(ctx):
         if f.qualname in SIBLINGS[1:]:
             rv, _ = resp_var(repo, f)
             fc = [n for c in method_calls(f, "force_close") if tail(c.func.value) == rv for n in nodes_with(f, c)]
-            starts = [(t, "false") for t in g.tests() if isinstance(t.ast, ast.Attribute) and t.ast.attr == "alive"]
-            clears = [s for s in g.stmts(ast.Assign) if any(isinstance(t, ast.Attribute) and t.attr == "alive" for t in s.ast.targets) and const(s.ast.value, NO) is False]
+            # evaluated from the function entry (path-sensitive in `alive`, through helpers and copies of the flag):
+            # the worker found not alive, the request that reaches the limit, and an ordinary request
             bad = None
-            for st in [t for t, _ in starts] + clears:
-                # path-sensitive in `alive`: the evaluator carries alive=False from the test / the store onwards
-                ex = Explorer(f)
-                env0 = {"self.alive": False} if st.kind == "test" else {"self.alive": True}
-                outs = ex.run(st, env0, stop=lambda n: n in apps, watch=dict((n.id, "force_close") for n in fc))
+            seen_dead = False
+            for alive0, nr0, mx0 in ((False, 1, 100), (True, 4, 5), (True, 99, 100), (True, 1, 100), (False, 99, 100)):
+                ex = Explorer(f, tracked=["self.alive", "self.nr"])
+                outs = ex.run(g.entry, {"self.alive": alive0, "self.nr": nr0, "self.max_requests": mx0, "self.cfg.keepalive": 2}, stop=lambda n: n in apps,
+                              watch=dict((n.id, "force_close") for n in fc))
                 for o in outs:
-                    if o.kind == "stop" and "force_close" not in o.events and o.env.get("self.alive") is False:
-                        bad = st
-            ctx.check("C18.R2", bool(fc) and bool(starts) and bad is None, key(f, "not-alive-closes"), site(f, (bad[0] if isinstance(bad, tuple) else bad) if bad else None),
-                      "the application can be called with `alive` false without the response having been forced to `Connection: close`: keep-alive connections of a worker that reached "
-                      "max_requests (or was told to stop) keep being served by it instead of moving to its replacement", "force_close whenever alive is false")
+                    if o.kind == "stop" and o.env.get("self.alive") is False:
+                        seen_dead = True
+                        if "force_close" not in o.events:
+                            bad = (alive0, nr0, mx0)
+            ctx.check("C18.R2", bool(fc) and seen_dead and bad is None, key(f, "not-alive-closes"), site(f),
+                      "the application can be called with `alive` false without the response having been forced to `Connection: close`%s: keep-alive connections of a worker that reached "
+                      "max_requests (or was told to stop) keep being served by it instead of moving to its replacement" % (" (alive=%s before, request %s of %s)" % bad if bad else ""),
+                      "force_close whenever alive is false")
 
 
 def r3(ctx):
